@@ -144,7 +144,7 @@ def checkDefinition (f : Formula) (taken : List Pred) : Outcome Pred :=
       | none => .err .termsInDefinition
       | some tv =>
         let termsAsVars := tv.foldl ins []
-        if !sameSet uniques termsAsVars then .err .definedPredicateVariableListMismatch
+        if !sameSet uniques termsAsVars || a.args.length ≠ vars.length then .err .definedPredicateVariableListMismatch
         else if a.predicate ∈ taken then .err .takenPredicate
         else if rhs.fv.any (· ∉ uniques) then .err .freeRhsVariables
         else if rhs.preds.any (· ∉ taken) then .err .undefinedRhsPredicate
